@@ -10,6 +10,10 @@ func init() {
 	const ccomp = "internal/engine/command/compiler.go"
 	const instr = "internal/machine/vm/program/instructions.go"
 	addMutants(
+		Mutant{Property: "C12", Name: "portion-divides-by-fraction-length", File: "internal/machine/portion.go",
+			Old: "\t\tres.Mul(res, big.NewRat(1, 100))", New: "\t\tres.Mul(res, big.NewRat(1, 100))\n\t\tres.Quo(res, new(big.Rat).SetInt64(int64(len(fractional))))", Expect: "R12i:"},
+		Mutant{Property: "C12", Name: "portion-divides-by-tested-value", File: "internal/machine/portion.go",
+			Old: "\t\tres.Mul(res, big.NewRat(1, 100))", New: "\t\tres.Mul(res, big.NewRat(1, 100))\n\t\tif d := new(big.Rat).SetInt64(int64(len(fractional))); d.Sign() != 0 {\n\t\t\tres.Quo(res, d)\n\t\t\tres.Mul(res, d)\n\t\t}", Expect: "none", Benign: true},
 		Mutant{Property: "C01", Name: "fallback-for-every-account", File: src,
 			Old: "\t\tif p.isWorld(*accAddr) {\n\t\t\tf := FallbackAccount(*accAddr)\n\t\t\tfallback = &f\n\t\t}", New: "\t\t{\n\t\t\tf := FallbackAccount(*accAddr)\n\t\t\tfallback = &f\n\t\t}", Expect: "R01a:"},
 		Mutant{Property: "C01", Name: "bounded-overdraft-gets-fallback", File: src,
